@@ -331,6 +331,14 @@ class Interp:
             idxv = self.eval(t.slice, env)
             if isinstance(idxv, SWhere):
                 rhs = self.where_rhs(idxv, rhs)
+        if isinstance(t, ast.Subscript):
+            idxv0 = self.eval(t.slice, env)
+            basev0 = self.eval(t.value, env)
+            if isinstance(basev0, SArr) and basev0.ndim == 2 and isinstance(idxv0, tuple) and len(idxv0) == 2 and \
+                    all(isinstance(x, SArr) and x.dtype == 'int' for x in idxv0) and not isinstance(rhs, (SArr, SCompact)):
+                fp_ = self.ctx.fp
+                self.pair_fancy_store(basev0, idxv0[0], idxv0[1], rhs, lambda o, v: scalar_arith(op, o, v, fp_))
+                return
         if isinstance(cur, SArr) and isinstance(t, ast.Subscript):
             idxv = self.eval(t.slice, env)
             basev = self.eval(t.value, env)
@@ -552,6 +560,10 @@ class Interp:
         cm = self.contract.assumed.get('with ' + txt) if self.contract else None
         if cm is None and isinstance(ce, ast.Call):
             cm = self.contract.assumed.get('with ' + ast.unparse(ce.func)) if self.contract else None
+        if cm is None and isinstance(ce, ast.Call) and isinstance(ce.func, ast.Attribute) and self.contract is not None \
+                and ce.func.attr in self.contract.inline:
+            if self.inline_contextmanager(ce, it.optional_vars, s.body, env):
+                return
         if cm is not None:
             # assumed context manager: enter effect / exit effect given as Assumed pair
             enter, exit_ = cm
@@ -570,6 +582,71 @@ class Interp:
                     self.apply_assumed(exit_, txt + '.__exit__', env)
             return
         raise Unsupported('with %s' % txt)
+
+    def inline_contextmanager(self, ce, optional_vars, body, env):
+        """`with obj.cm(args):` where cm is a real @contextmanager generator listed in `inline`, of the
+        shape  pre...; try: yield [v] finally: post...   or   pre...; yield [v]; post...
+        The real pre-statements, the with-body and the real post-statements are executed in that order
+        (post also when the body raises, for the try/finally shape).  Returns False if the shape differs."""
+        obj = self.eval(ce.func.value, env)
+        if not isinstance(obj, SObj):
+            return False
+        r = self.find_method(obj, ce.func.attr)
+        if r is None:
+            return False
+        mod, fn, cname = r
+        if not any((isinstance(d, ast.Attribute) and d.attr == 'contextmanager') or
+                   (isinstance(d, ast.Name) and d.id == 'contextmanager') for d in fn.decorator_list):
+            return False
+        stmts = [st for st in fn.body if not (isinstance(st, ast.Expr) and isinstance(st.value, ast.Constant))]
+        k = None
+        for i, st in enumerate(stmts):
+            if any(isinstance(n, (ast.Yield, ast.YieldFrom)) for n in ast.walk(st)):
+                k = i
+                break
+        if k is None or any(isinstance(n, (ast.Yield, ast.YieldFrom)) for st in stmts[k + 1:] for n in ast.walk(st)):
+            return False
+        ys = stmts[k]
+        pre, post_always, post_normal = stmts[:k], [], stmts[k + 1:]
+        if isinstance(ys, ast.Try) and len(ys.body) == 1 and not ys.handlers and not ys.orelse:
+            yexpr = ys.body[0]
+            post_always = ys.finalbody
+        else:
+            yexpr = ys
+        if not (isinstance(yexpr, ast.Expr) and isinstance(yexpr.value, ast.Yield)):
+            return False
+        if any(isinstance(n, ast.Return) for st in pre + list(post_always) + post_normal for n in ast.walk(st)):
+            return False
+        args = [self.eval(a, env) for a in ce.args]
+        kwargs = {kw.arg: self.eval(kw.value, env) for kw in ce.keywords}
+        self.inlined.append(('%s::%s.%s' % (mod.relpath, cname, fn.name), extract.source_hash(mod, fn)))
+        cenv = self.bind_args(mod, cname, fn, [obj] + args, kwargs)
+        fr = Frame(mod, cname, fn, cenv)
+
+        def in_cm(block):
+            self.frames.append(fr)
+            try:
+                self.exec_block(block, cenv)
+            finally:
+                self.frames.pop()
+        in_cm(pre)
+        if optional_vars is not None:
+            self.frames.append(fr)
+            try:
+                yv = self.eval(yexpr.value.value, cenv) if yexpr.value.value is not None else None
+            finally:
+                self.frames.pop()
+            self.assign(optional_vars, yv, env)
+        try:
+            self.exec_block(body, env)
+        except (Unsupported, Infeasible, PathEnd):
+            raise
+        except BaseException:
+            in_cm(post_always)          # try/finally shape: exit code also runs when the body raises/returns
+            raise
+        in_cm(post_always)
+        in_cm(post_normal)
+        return True
 
     # -- loops ---------------------------------------------------------------------------------
     def loop_key(self):
@@ -908,15 +985,27 @@ class Interp:
         interp = self
         mod, cls = self.frame.mod, self.frame.cls
 
+        pure_at_creation = self.pure
+        old_env_at_creation = self.old_env
+
         def call(args, kwargs):
             fenv = dict(env)
             names = [a.arg for a in e.args.args]
             for nm, v in zip(names, args):
                 fenv[nm] = v
             interp.frames.append(Frame(mod, cls, None, fenv))
+            # a lambda written inside a clause is a spec function: it is always evaluated in clause
+            # (pure) mode, also when a sum body is expanded later
+            if pure_at_creation:
+                interp.pure += 1
+                saved_old = interp.old_env
+                interp.old_env = old_env_at_creation
             try:
                 return interp.eval(e.body, fenv)
             finally:
+                if pure_at_creation:
+                    interp.pure -= 1
+                    interp.old_env = saved_old
                 interp.frames.pop()
         return Closure(call, 'lambda')
 
@@ -1567,6 +1656,12 @@ class Interp:
                     return g(z3.If(j < 0, j + tz(n), j))
                 return npm.new_arr(ctx, idx.shape, elem, a.dtype)
             raise Unsupported('array index of dtype %s' % idx.dtype)
+        if isinstance(idx, tuple) and a.ndim == 2 and len(idx) == 2 and all(
+                isinstance(x, SArr) and x.dtype == 'int' and x.ndim == 1 for x in idx):
+            rg, cg = self.frozen_getter(idx[0]), self.frozen_getter(idx[1])
+            npm.shape_eq(ctx, idx[0].shape, idx[1].shape, 'pair index shapes')
+            g = self.frozen_getter(a)
+            return npm.new_arr(ctx, idx[0].shape, lambda k: g(tz(rg(k)), tz(cg(k))), a.dtype)
         if isinstance(idx, tuple) and a.ndim == 2 and len(idx) == 2:
             i, j = idx
             full = slice(None)
@@ -1582,7 +1677,22 @@ class Interp:
                               lambda rr, c: (scalar_cmp('==', rr, r), (c,)))
             if isinstance(i, slice) and isinstance(j, slice) and i == full and j == full:
                 return a
+            if isinstance(i, slice) and isinstance(j, slice):
+                (lo0, m0), (lo1, m1) = self.slice_bounds(i, a.shape[0]), self.slice_bounds(j, a.shape[1])
+                return a.view((m0, m1), lambda r, c: (scalar_arith('+', lo0, r), scalar_arith('+', lo1, c)),
+                              lambda r, c: (True, (scalar_arith('-', r, lo0), scalar_arith('-', c, lo1))))
         raise Unsupported('array index %r' % (idx,))
+
+    def slice_bounds(self, sl, n):
+        """(start, length) of a step-1 slice over an axis of extent n (python clamping)"""
+        if sl.step is not None and not (isinstance(sl.step, int) and sl.step == 1):
+            raise Unsupported('slice step != 1')
+        tmp = npm.new_arr(self.ctx, (n,), lambda i: 0, 'int', 'axis')
+        v = npm.slice_view(self.ctx, tmp, sl)
+        if v is tmp:
+            return 0, n
+        lo = v.sidx((0,))[0]
+        return lo, v.n
 
     def setitem(self, base, idx, v):
         ctx = self.ctx
@@ -1649,6 +1759,12 @@ class Interp:
             return
         elif isinstance(idx, SArr) and idx.dtype == 'int' and a.ndim == 1 and idx.ndim == 1:
             return self.fancy_store(a, idx, v)
+        elif isinstance(idx, tuple) and a.ndim == 2 and len(idx) == 2 and isinstance(idx[0], slice) and \
+                idx[0] == slice(None) and isinstance(idx[1], SArr) and idx[1].dtype == 'int' and idx[1].ndim == 1:
+            return self.col_fancy_store(a, idx[1], v)
+        elif isinstance(idx, tuple) and a.ndim == 2 and len(idx) == 2 and isinstance(idx[0], SArr) and \
+                isinstance(idx[1], SArr) and idx[0].dtype == 'int' and idx[1].dtype == 'int':
+            return self.pair_fancy_store(a, idx[0], idx[1], v)
         elif isinstance(idx, tuple):
             target = self.arr_getitem(a, idx)
             if not isinstance(target, SArr):
@@ -1667,6 +1783,61 @@ class Interp:
             npm.arr_write(ctx, target, None, lambda *ix: g(*ix))
         else:
             npm.arr_write(ctx, target, None, lambda *ix: v)
+
+    def col_fancy_store(self, a, idx, v):
+        """a[:, idx] = v  (2-d; idx duplicate-free: obligation)"""
+        ctx = self.ctx
+        nc, m = a.shape[1], idx.n
+        iget = self.frozen_getter(idx)
+        k1, k2 = ctx.fresh('k1', IntS), ctx.fresh('k2', IntS)
+        ctx.add_iterm(k1)
+        ctx.add_iterm(k2)
+        pos = lambda k: tz(iget(k))
+        rng = lambda k: z3.And(k >= 0, k < tz(m))
+        ctx.oblige('bounds', 'column index within bounds', z3.Implies(rng(k1), z3.And(pos(k1) >= 0, pos(k1) < tz(nc))))
+        ctx.oblige('pre@callee', 'column index duplicate-free',
+                   z3.Implies(z3.And(rng(k1), rng(k2), k1 != k2), pos(k1) != pos(k2)))
+        inv = ctx.fresh_fun('cinv', IntS, IntS)
+        ctx.add_universal(lambda t: z3.Implies(rng(t), inv(pos(t)) == t))
+        if isinstance(v, SArr):
+            if v.ndim != 2:
+                raise Unsupported('column store of non-2d value')
+            npm.shape_eq(ctx, (a.shape[0], m), v.shape, 'column store shape')
+            vg = self.frozen_getter(v)
+        else:
+            vg = lambda r, c: v
+        def region(r, c):
+            # the preimage of a column is an index term: existential clauses over the index array
+            # (any(j == idx[k] ...)) are instantiated there
+            ctx.add_iterm(inv(tz(c)))
+            return z3.And(rng(inv(tz(c))), pos(inv(tz(c))) == tz(c))
+        npm.arr_write(ctx, a, region, lambda r, c: vg(r, inv(tz(c))))
+
+    def pair_fancy_store(self, a, rows, cols, v, combine=None):
+        """a[rows, cols] = v  (2-d; (row, col) pairs duplicate-free: obligation)"""
+        ctx = self.ctx
+        m = rows.n
+        npm.shape_eq(ctx, rows.shape, cols.shape, 'pair index shapes')
+        rg, cg = self.frozen_getter(rows), self.frozen_getter(cols)
+        k1, k2 = ctx.fresh('k1', IntS), ctx.fresh('k2', IntS)
+        ctx.add_iterm(k1)
+        ctx.add_iterm(k2)
+        rng = lambda k: z3.And(k >= 0, k < tz(m))
+        ctx.oblige('bounds', 'pair index within bounds',
+                   z3.Implies(rng(k1), z3.And(tz(rg(k1)) >= 0, tz(rg(k1)) < tz(a.shape[0]), tz(cg(k1)) >= 0, tz(cg(k1)) < tz(a.shape[1]))))
+        ctx.oblige('pre@callee', '(row, col) pairs duplicate-free',
+                   z3.Implies(z3.And(rng(k1), rng(k2), k1 != k2), z3.Or(tz(rg(k1)) != tz(rg(k2)), tz(cg(k1)) != tz(cg(k2)))))
+        inv = ctx.fresh_fun('pinv', IntS, IntS, IntS)
+        ctx.add_universal(lambda t: z3.Implies(rng(t), inv(tz(rg(t)), tz(cg(t))) == t))
+        if isinstance(v, SArr):
+            npm.shape_eq(ctx, rows.shape, v.shape, 'pair store shape')
+            vg = self.frozen_getter(v)
+        else:
+            vg = lambda k: v
+        def region(r, c):
+            ctx.add_iterm(inv(tz(r), tz(c)))
+            return z3.And(rng(inv(tz(r), tz(c))), tz(rg(inv(tz(r), tz(c)))) == tz(r), tz(cg(inv(tz(r), tz(c)))) == tz(c))
+        npm.arr_write(ctx, a, region, lambda r, c: vg(inv(tz(r), tz(c))), combine)
 
     def fancy_store(self, a, idx, v):
         """a[idx] = v for an int index array: requires idx injective (obligation), then uses an
@@ -1696,6 +1867,7 @@ class Interp:
 
         def region(j):
             j = tz(j)
+            ctx.add_iterm(inv(j))
             return z3.And(rng(inv(j)), pos(inv(j)) == j)
         npm.arr_write(ctx, a, region, lambda j: vg(inv(tz(j))))
 
@@ -1905,6 +2077,8 @@ class Interp:
     sizes = {}
     ghost_env = {}
     bound_vars = ()
+    definitional_ok = False
+    defined_results = set()
     pure_nonneg = True     # clause indices are written non-negative (documented convention)
 
     def parse_clause(self, txt):
@@ -1972,6 +2146,41 @@ class Interp:
             _, elt, var, rargs, ifs = q
             lo, hi = self.range_bounds(rargs, env)
             interp = self
+            # definitional fast path: all(result[i] == rhs for i in range(len(result))) on the fresh
+            # result array of a callee contract: install rhs as its element function (equivalent to
+            # the universal fact, but usable inside quantified reasoning about sums)
+            if (self.definitional_ok and not ifs and isinstance(elt, ast.Compare) and len(elt.ops) == 1
+                    and isinstance(elt.ops[0], ast.Eq) and isinstance(elt.left, ast.Subscript)
+                    and isinstance(elt.left.value, ast.Name) and elt.left.value.id == 'result'
+                    and isinstance(elt.left.slice, ast.Name) and elt.left.slice.id == var
+                    and isinstance(env.get('result'), SArr) and env['result'].ndim == 1
+                    and isinstance(lo, int) and lo == 0):
+                res = env['result']
+                same_n = (is_z3(hi) and is_z3(res.n) and hi.get_id() == res.n.get_id()) or \
+                    (isinstance(hi, int) and isinstance(res.n, int) and hi == res.n)
+                uses_result = any(isinstance(nd, ast.Name) and nd.id == 'result' for nd in ast.walk(elt.comparators[0]))
+                if same_n and not uses_result and id(res) not in self.defined_results:
+                    self.defined_results.add(id(res))
+                    env_s = snapshot(dict(env), {})
+                    saved_state2 = (interp.old_env, interp.sizes, interp.ghost_env, list(interp.frames))
+                    rhs_node = elt.comparators[0]
+
+                    def elemf(i):
+                        e2 = dict(env_s)
+                        e2[var] = i
+                        cur = (interp.old_env, interp.sizes, interp.ghost_env, interp.frames)
+                        interp.old_env, interp.sizes, interp.ghost_env = saved_state2[:3]
+                        interp.frames = list(saved_state2[3])
+                        interp.pure += 1
+                        interp.ctx.frozen_iterms += 1
+                        try:
+                            return interp.eval(rhs_node, e2)
+                        finally:
+                            interp.pure -= 1
+                            interp.ctx.frozen_iterms -= 1
+                            interp.old_env, interp.sizes, interp.ghost_env, interp.frames = cur
+                    res.store.f = MF(elemf)
+                    return
 
             # the fact is instantiated lazily (at VC time): freeze the evaluation context now
             saved_state = (interp.old_env, interp.sizes, interp.ghost_env, list(interp.frames))
@@ -2009,6 +2218,32 @@ class Interp:
         ctx.assume(g)
 
     def tr(self, node, env, pol):
+        """Top-level entry: translates and then resolves existential-goal placeholders."""
+        if not hasattr(self, '_pending_ex'):
+            self._pending_ex = []
+            self._tr_depth = 0
+        self._tr_depth += 1
+        try:
+            g = self._tr(node, env, pol)
+        finally:
+            self._tr_depth -= 1
+        if self._tr_depth == 0 and self._pending_ex:
+            pend, self._pending_ex = self._pending_ex, []
+            if isinstance(g, bool):
+                return g
+            cands0 = list(self.ctx.iterms)
+            g = b2z(g)
+            mats = [m for (_, _, m, _, _) in pend]
+            for n, (ph, qv, _, lo, hi) in enumerate(pend):
+                m = mats[n]
+                outs = [z3.substitute(m, (qv, t)) for t in cands0 + [lo, hi]]
+                d = z3.Or(*outs) if outs else z3.BoolVal(False)
+                g = z3.substitute(g, (ph, d))
+                for k in range(n + 1, len(mats)):
+                    mats[k] = z3.substitute(mats[k], (ph, d))
+        return g
+
+    def _tr(self, node, env, pol):
         """Clause -> formula, polarity aware (pol=+1 to be proved, -1 assumed)."""
         ctx = self.ctx
         if isinstance(node, ast.BoolOp):
@@ -2042,6 +2277,10 @@ class Interp:
                 forall = (kind == 'all')
                 skolem = (forall and pol > 0) or ((not forall) and pol < 0)
                 if skolem:
+                    if getattr(self, '_q_open', 0):
+                        # a skolem CONSTANT below an instantiated/quantified variable would have to be a
+                        # skolem function of it; refusing keeps both polarities sound
+                        raise Unsupported('quantifier alternation in clause')
                     k = ctx.fresh(var, IntS)
                     ctx.add_iterm(k)
                     e2 = dict(env)
@@ -2060,15 +2299,19 @@ class Interp:
                 conds = [scalar_cmp('<=', lo, qv), scalar_cmp('<', qv, hi)]
                 for c in ifs:
                     conds.append(self.as_bool(self.eval(c, e2)))
-                body = self.tr(elt, e2, pol)
+                self._q_open = getattr(self, '_q_open', 0) + 1
+                try:
+                    body = self.tr(elt, e2, pol)
+                finally:
+                    self._q_open -= 1
                 if forall:
                     return z3.ForAll([qv], z3.Implies(b2z(zand(*conds)), b2z(body)))
-                # existential goal: candidates = known index terms + bounds
-                cands = list(ctx.iterms) + [tz(lo), tz(scalar_arith('-', hi, 1))]
-                outs = []
-                for t in cands:
-                    outs.append(z3.substitute(b2z(zand(zand(*conds), body)), (qv, t)))
-                return zor(*outs) if outs else False
+                # existential goal: candidates = known index terms + bounds.  The index terms are those in
+                # play when the WHOLE clause has been translated (a later conjunct may introduce the witness,
+                # e.g. the preimage of a fancy-store column), hence the placeholder resolved by tr().
+                ph = z3.Bool(ctx.fresh_name('ex'))
+                self._pending_ex.append((ph, qv, b2z(zand(zand(*conds), body)), tz(lo), tz(scalar_arith('-', hi, 1))))
+                return ph
         v = self.eval(node, env)
         return self.as_bool(v)
 
@@ -2177,7 +2420,7 @@ class SymRange:
         return all(isinstance(x, int) for x in (self.lo, self.hi, self.step))
 
 
-BUILTINS = {'len', 'range', 'isinstance', 'abs', 'min', 'max', 'float', 'int', 'bool', 'str',
+BUILTINS = {'locals', 'len', 'range', 'isinstance', 'abs', 'min', 'max', 'float', 'int', 'bool', 'str',
             'enumerate', 'zip', 'sorted', 'list', 'tuple', 'dict', 'set', 'sum', 'any', 'all',
             'getattr', 'hasattr', 'type', 'repr', 'id', 'callable', 'reversed', 'slice', 'iter',
             'next', 'frozenset', 'complex', 'round', 'divmod', 'issubclass', 'setattr', 'map',
